@@ -21,6 +21,8 @@
 (***************************************************************************)
 EXTENDS IRSolver, TraceLib, Json, IOUtils
 
+TF == INSTANCE Transform
+
 VARIABLES l, mon, cov, cx
 
 Tr == ndJsonDeserialize(IOEnv.TRACE)
@@ -43,7 +45,7 @@ CovKeys == {"runs", "events", "computes", "returns", "notconv_with_flags", "succ
             "second_compute", "breakdown_steps", "restarts", "double_shifts", "single_shifts",
             "faults", "init_throw", "compute_throw", "pairs_judged", "conv_judged", "fac_judged",
             "digest_compared", "opprobe_compared", "obs", "expand_basis", "gen_runs", "herm_runs",
-            "fresh_objects", "sorted_checked", "prefix_checked", "known_family_runs"}
+            "fresh_objects", "sorted_checked", "prefix_checked", "known_family_runs", "sel_judged", "sel_skipped_ambiguous", "sel_not_successful"}
 
 Bump(c, key, by) == [c EXCEPT ![key] = @ + by]
 
@@ -285,6 +287,30 @@ EvMPairs(e) ==
            \cup (IF cx.gen /\ cx.ref = 1 THEN If(\A i \in 1 .. n : e.pidx[i] = 0 \/ e.rmult[i] > 1, "Distinct") ELSE {}),
         cx)
 
+\* C04: on a Successful return the k returned eigenvalues are the k the selection rule names, in the spectrum the rule acts on
+\* (A's own spectrum, or nu = 1/(lambda-sigma), lambda/(lambda-sigma), (lambda+sigma)/(lambda-sigma) in the shift modes).
+\* The prescribed spectrum is (Gaussian-)integer valued in half units; Transform.tla decides exactly.  Cases in which the
+\* rule does not determine a unique set (ties at the boundary) are counted as skipped, not as passes.
+SelIdx(e) == {e.ridx[i] : i \in 1 .. Len(e.ridx)}
+SelDetermined(e) ==
+    IF cx.gen
+    THEN (IF cx.mode = "csi" THEN (\A j \in 1 .. Len(e.im2) : e.im2[j] = 0) /\ e.rule = 0
+                                   /\ TF!Determined(0, [j \in 1 .. Len(e.re2) |-> TF!Nu("csi", e.re2[j], e.sig2, e.sigi2)], e.k)
+          ELSE TF!CDetermined(cx.mode, e.rule, e.re2, e.im2, e.sig2, e.k))
+    ELSE TF!Determined(e.rule, [j \in 1 .. Len(e.re2) |-> TF!Nu(cx.mode, e.re2[j], e.sig2, e.sigi2)], e.k)
+SelOK(e) ==
+    IF cx.gen
+    THEN (IF cx.mode = "csi" THEN TF!WantedOK(0, [j \in 1 .. Len(e.re2) |-> TF!Nu("csi", e.re2[j], e.sig2, e.sigi2)], SelIdx(e), e.k)
+          ELSE TF!CIsWanted(cx.mode, e.rule, e.re2, e.im2, e.sig2, SelIdx(e), e.k))
+    ELSE TF!WantedOK(e.rule, [j \in 1 .. Len(e.re2) |-> TF!Nu(cx.mode, e.re2[j], e.sig2, e.sigi2)], SelIdx(e), e.k)
+\* every returned value must lie within the residual-level bound of the prescribed value it was matched to
+SelMatched(e) == Len(e.ridx) = e.k /\ \A i \in 1 .. Len(e.qdist) : QLe(e.qdist[i], PairBound(cx.qnA, cx.call.qtol) + 64)
+EvMSel(e) ==
+    IF e.info # 0 THEN Res(s, {}, cx)
+    ELSE IF ~SelDetermined(e) THEN Res(s, {}, cx)
+    ELSE Res(s, If(SelMatched(e), "ReturnedInPrescribedSpectrum")
+                \cup (IF SelMatched(e) THEN If(Cardinality(SelIdx(e)) = e.k, "ReturnedDistinct") \cup If(SelOK(e), "ReturnedIsWanted") ELSE {}), cx)
+
 \* ov: heap blocks whose tail canary was found overwritten when they were freed (alloc_guard.h)
 EvEnd(e) == Res(s, If(s.pc = "idle", "EndedMidCall") \cup If(e.ov = 0, "HeapOverrun"), cx)
 EvAbort(e) == Res([s EXCEPT !.pc = "idle"], {Hit("Abort")}, cx)
@@ -322,6 +348,7 @@ Dispatch(e) ==
       [] e.e = "MFac" -> EvMFac(e)
       [] e.e = "MConv" -> EvMConv(e)
       [] e.e = "MPairs" -> EvMPairs(e)
+      [] e.e = "MSel" -> EvMSel(e)
       [] e.e = "End" -> EvEnd(e)
       [] e.e = "Abort" -> EvAbort(e)
       [] OTHER -> Res(s, {Hit("UnknownEvent:" \o e.e)}, cx)
@@ -339,6 +366,8 @@ CovOf(e, r) ==
                 [] e.e = "Threw" -> IF e.x = "fault" THEN Bump(c0, "faults", 1)
                                     ELSE IF e.f = "init" THEN Bump(c0, "init_throw", 1) ELSE Bump(c0, "compute_throw", 1)
                 [] e.e = "MPairs" -> Bump(c0, "pairs_judged", Len(e.qres))
+                [] e.e = "MSel" -> IF e.info # 0 THEN Bump(c0, "sel_not_successful", 1)
+                                   ELSE IF SelDetermined(e) THEN Bump(c0, "sel_judged", 1) ELSE Bump(c0, "sel_skipped_ambiguous", 1)
                 [] e.e = "MConv" -> Bump(c0, "conv_judged", Len(e.qres))
                 [] e.e = "MFac" -> Bump(c0, "fac_judged", 1)
                 [] e.e = "OpProbe" -> Bump(c0, "opprobe_compared", IF cx.opdg = -1 THEN 0 ELSE 1)
